@@ -181,6 +181,32 @@ Proof.
       exists c'. split; [exact H2|]. rewrite Hd', Hd. reflexivity.
 Qed.
 
+(* a reader that lags but whose queue has a free slot at every publish receives every event, in order *)
+Lemma nrun_lagging_all ops : forall s i c, nth_error s i = Some c -> live c = true ->
+  Forall (fun o => o <> NUnsub i) ops -> never_full i ops s = true ->
+  exists c', nth_error (nrun ops s) i = Some c' /\ delivered c' = delivered c ++ pubs ops.
+Proof.
+  induction ops as [|o r IH]; intros s i c H L NU F.
+  - exists c. simpl. rewrite app_nil_r. auto.
+  - inversion NU as [|o' r' NU1 NU2]; subst.
+    destruct (nstep_nth s o i c H) as (c1 & H1 & Hc & Hl & Hd & Hfree).
+    assert (L1 : live c1 = true) by (destruct Hl as [Hl|Hl]; [congruence|contradiction]).
+    simpl in F. apply andb_true_iff in F. destruct F as [F0 F].
+    destruct (IH _ i c1 H1 L1 NU2 F) as (c' & H2 & Hd').
+    destruct o as [e|j|k|j]; simpl in *.
+    + rewrite H in F0. apply Nat.ltb_lt in F0.
+      specialize (Hfree e eq_refl L F0).
+      destruct Hd as [(Hd & Hb)|(e' & E & Hd & Hb & _)].
+      * rewrite Hfree, app_length in Hb. simpl in Hb. lia.
+      * inversion E; subst e'. exists c'. split; [exact H2|]. rewrite Hd', Hd, <- app_assoc. reflexivity.
+    + destruct Hd as [(Hd & Hb)|(e' & E & _)]; [|discriminate].
+      exists c'. split; [exact H2|]. rewrite Hd', Hd. reflexivity.
+    + destruct Hd as [(Hd & Hb)|(e' & E & _)]; [|discriminate].
+      exists c'. split; [exact H2|]. rewrite Hd', Hd. reflexivity.
+    + destruct Hd as [(Hd & Hb)|(e' & E & _)]; [|discriminate].
+      exists c'. split; [exact H2|]. rewrite Hd', Hd. reflexivity.
+Qed.
+
 (* ================================================================== issuing paths *)
 
 Definition no_respond (tr : list effect) : Prop := forall c, ~ In (Respond c) tr.
